@@ -67,11 +67,11 @@ CHECKS = {
                     ["VxC02_Reentry_Start4", "VxC02_Reentry_Select4", "VxC02_Reentry_From4", "VxC02_Reentry_Join4", "VxC02_Reentry_Where4"], ["C02.reentry_accounted"], extra={"engine_only_asserts": ["C02.reentry_accounted"]}),
     },
     "C03": {
-        "bounds": {"quick": "WHERE-expressions of <= 4 symbolic tokens over a 30-row lexeme table (identifiers, literals, every operator of the documented ladder, parentheses, NOT/IS/NULL/IN/BETWEEN/LIKE/AND/OR) and <= 5 tokens over a 16-row operator table; SELECT with every combination of DISTINCT/WHERE/GROUP BY/HAVING/ORDER BY [DESC]/LIMIT/OFFSET with symbolic names and numbers; chains of <= 2 set operators (UNION/EXCEPT/INTERSECT, ALL symbolic) over 3 selects",
-                   "thorough": "<= 5 tokens (30-row table), <= 7 tokens (operator table); same clause templates"},
+        "bounds": {"quick": "WHERE-expressions of <= 4 symbolic tokens over a 30-row lexeme table (identifiers, literals, every operator of the documented ladder, parentheses, NOT/IS/NULL/IN/BETWEEN/LIKE/AND/OR) and <= 5 tokens over a 16-row operator table; SELECT with every combination of DISTINCT/WHERE/GROUP BY/HAVING/ORDER BY [DESC]/LIMIT/OFFSET with symbolic names and numbers; chains of <= 2 set operators (UNION/EXCEPT/INTERSECT, ALL symbolic) over 3 selects; join chains of <= 2 joins, each of 9 spellings (JOIN, INNER, LEFT [OUTER], RIGHT [OUTER], FULL [OUTER], CROSS) with symbolic table, optional alias, ON or USING: kind, table, alias and condition per join as written; INSERT with 0-2 listed columns and 1-3 rows of symbolic numbers: every row keeps its own values; UPDATE with 1-3 assignments and DELETE, WHERE symbolic",
+                   "thorough": "<= 5 tokens (30-row table), <= 7 tokens (operator table); same clause templates; chains of <= 3 joins"},
         "outside": "expressions longer than the bound; unary minus, JSON operators, ::, CASE, functions, sub-queries inside the expression window (not in the documented ladder harness); joins, CTEs, windows, DML/DDL/MERGE clause structure",
         "assumptions": ["the reference precedence-climbing parser (harness/pkg/sql/parser/c03.go) states the documented ladder; when it rejects, nothing is asserted"],
-        "runs": parruns(["VxC03_Expr4", "VxC03_Ops5", "VxC03_Clauses", "VxC03_SetOps"], ["VxC03_Expr5", "VxC03_Ops7", "VxC03_Clauses", "VxC03_SetOps"], []),
+        "runs": parruns(["VxC03_Expr4", "VxC03_Ops5", "VxC03_Clauses", "VxC03_SetOps", "VxC03_Joins2", "VxC03_Insert", "VxC03_UpdateDelete"], ["VxC03_Expr5", "VxC03_Ops7", "VxC03_Clauses", "VxC03_SetOps", "VxC03_Joins3", "VxC03_Insert", "VxC03_UpdateDelete"], []),
     },
     "C06": {
         "bounds": {"quick": "expression shapes: every accepted WHERE-expression of <= 4 symbolic tokens over the 16-row operator table and <= 3 tokens over the 30-row table: AST.SQL() -> real tokenizer -> real parser gives a structurally equal tree and the same text again; 23 statement templates (joins, USING, IS NOT NULL, NOT EXISTS, IN/BETWEEN/LIKE, explicit parentheses, GROUP/HAVING/ORDER/NULLS/LIMIT/OFFSET, window frame with offset, CTE, UNION ALL, CASE, CAST, DISTINCT, INSERT/UPDATE/DELETE, derived table, unary minus, FOR UPDATE) with symbolic two-letter identifiers, plain and double-quoted (all 676 spellings per name on one path; reserved words found by the solver); gosqlx.Format on 6 statements with symbolic options (indent 0..4, keyword case, semicolon, line limit): re-parse equality and idempotence",
